@@ -21,7 +21,7 @@ import random
 
 from .. import routing as rt
 from .. import routingx as rx
-from ..core import Ctx, pmap
+from ..core import Ctx
 
 LEVEL = "model_checking"
 AREA = "routingx"
@@ -150,7 +150,7 @@ def converter_groups(ctx: Ctx, rng):
         V("int", "v", signed=True, hi=5), V("int", "v", n=2, lo=7), V("float", "v"), V("float", "v", signed=True),
         V("float", "v", lo=1500, hi=2500), V("float", "v", signed=True, hi=0), V("any", "v", items=["yes", "no", "maybe"], cust="bool"),
         V("any", "v", items=["yes", "no", "maybe"], cust="boolm"), V("strlen", "v", n=2, cust="code"), V("path", "v", cust="wiki"), V("path", "v", cust="wiki2"),
-        V("int", "v", cust="dflt"),
+        V("int", "v", cust="dflt"), V("strlen", "v", n=2, cust="late"),
     ]
     texts = ["a", "ab", "abc", "abcd", "é", "about", "help", "foo,bar", "foo", "yes", "no", "maybe", "0", "3", "2", "12", "13", "5", "4", "-5", "-6",
              "-0", "007", "07", "7", "012", "0012", "1.5", "1.49", "2.5", "2.50", "2.51", "-0.5", "0.0", "1.", ".5", "1e3", rt.UUID1, rt.UUID2,
@@ -174,6 +174,11 @@ def converter_groups(ctx: Ctx, rng):
             cfg = rx.make_cfg(rules, rng.random() < 0.7, True, False, dict(rt.DEFAULT_BIND))
             if c.get("cust") == "dflt":
                 cfg["map"]["dflt"] = "int"
+            if c.get("cust") == "late":
+                # the rule with the late-registered converter is added to the map after it was created
+                cfg["rules"] = [r for r in cfg["rules"] if r is not cfg["rules"][[x["endpoint"] for x in cfg["rules"]].index(main["endpoint"])]] \
+                    + [x for x in cfg["rules"] if x["endpoint"] == main["endpoint"]]
+                cfg["late"] = True
             ts = texts if not ctx.quick else rng.sample(texts, 12) + rx.extra_tokens(rules)
             if c["conv"] == "path":
                 ts = ts + ["a/b", "a/b/c", "w"]
@@ -216,9 +221,9 @@ def detail_of(ln):
     return k
 
 
-def record(ctx: Ctx, groups, factories=(), tag="", fork=True):
-    """run the operations on real maps -> (lines, meta)"""
-    results = pmap(rx.run_ops, groups, workers=ctx.workers, chunksize=4) if fork else [rx.run_ops(g) for g in groups]
+def record(ctx: Ctx, groups, factories=(), tag="", pool=None):
+    """run the operations on real maps (in the worker processes of `pool`, if given) -> (lines, meta)"""
+    results = pool.map(rx.run_ops, groups, chunksize=4) if pool is not None and len(groups) > 8 else [rx.run_ops(g) for g in groups]
     lines, meta = [], {}
     for t, (g, res) in enumerate(zip(groups, results)):
         tid = f"{tag}{t}"
@@ -260,57 +265,63 @@ def judge_recorded(ctx: Ctx, lines, meta):
     return lines
 
 
-def self_test(ctx: Ctx, lines):
-    """non-vacuity of the judge: recorded lines with one corrupted field each must be rejected"""
+def self_test_groups():
+    """small fixed maps whose recorded lines the self-test corrupts (they are also judged as they are)"""
+    U = rx.universe()
+    plain = dict(rt.DEFAULT_BIND)
+    M = lambda *ids, **kw: rx.make_cfg([dict(U[i - 1]) for i in ids], True, True, kw.get("hm", False), kw.get("bind", plain))
+    mt = lambda p: {"op": "match", "path": p, "method": "GET", "wsarg": "none"}
+    return [
+        (M(2), [mt("/a"), {"op": "build", "ep": "e1", "vals": {}, "ext": False, "scheme": ""}]),
+        (M(9), [mt("/q"), {"op": "dispatch", "path": "/q", "method": "GET", "catch": False, "view": "ret"},
+                {"op": "gethost", "none": False, "dp": "api"}]),
+        (M(3), [mt("/a")]),
+        (M(16), [mt("/q")]),
+        (M(13), [mt("/a")]),
+        (M(21, hm=True, bind=dict(plain, server="g.x")), [mt("/a")]),
+    ]
+
+
+def self_test(ctx: Ctx, lines, base):
+    """non-vacuity of the judge: recorded lines with one corrupted field each must be rejected.
+    base = index of the first self-test group among the recorded groups."""
     import copy
 
     from ..tlc import MachineryError
 
-    def find(pred):
-        for i, ln in enumerate(lines):
-            if ln["op"] != "cfg" and pred(ln):
-                j = i
-                while lines[j]["op"] != "cfg":
-                    j -= 1
-                return copy.deepcopy(lines[j]), copy.deepcopy(ln)
-        return None
+    by = {}
+    for ln in lines:
+        by.setdefault(ln["t"], []).append(ln)
+
+    def grp(k):
+        g = by[str(base + k)]
+        return copy.deepcopy(g[0]), [copy.deepcopy(x) for x in g[1:]]
 
     muts = []
-    got = find(lambda l: l["op"] == "match" and l["r"]["kind"] == "match" and l["r"]["args"])
-    if got:
-        c, l = got
-        l["r"]["args"][0]["v"] = l["r"]["args"][0]["v"] + [120]
-        muts.append((c, l, "match argument value"))
-    got = find(lambda l: l["op"] == "match" and l["r"]["kind"] == "wsm")
-    if got:
-        c, l = got
-        l["r"]["kind"] = "notfound"
-        muts.append((c, l, "WebsocketMismatch recorded as NotFound"))
-    got = find(lambda l: l["op"] == "match" and l["r"]["kind"] == "redirect" and l["r"]["fnrule"] == 0 and len(l["r"]["url"]) > 12)
-    if got:
-        c, l = got
-        l["r"]["url"] = l["r"]["url"][:-1] + [l["r"]["url"][-1] ^ 1]
-        muts.append((c, l, "redirect URL"))
-    got = find(lambda l: l["op"] == "build" and l["x"]["ok"] and l["x"]["url"][:2] == [119, 115])
-    if got:
-        c, l = got
-        l["x"]["url"] = [104, 116, 116, 112] + l["x"]["url"][l["x"]["url"].index(58):]
-        muts.append((c, l, "ws scheme of a built WebSocket URL"))
-    got = find(lambda l: l["op"] == "factory" and l["f"]["src"]["ws"])
-    if got:
-        c, l = got
+
+    def add(k, j, want, what, change):
+        c, ls = grp(k)
+        l = ls[j]
+        if want(l):
+            change(l)
+            muts.append((c, l, what))
+
+    add(0, 0, lambda l: l["r"]["kind"] == "wsm", "WebsocketMismatch recorded as NotFound", lambda l: l["r"].update(kind="notfound"))
+    add(0, 1, lambda l: l["x"]["url"][:2] == [119, 115], "ws scheme of a built WebSocket URL",
+        lambda l: l["x"].update(url=[104, 116, 116, 112] + l["x"]["url"][l["x"]["url"].index(58):]))
+    add(1, 0, lambda l: l["r"]["kind"] == "match" and l["r"]["args"], "match argument value",
+        lambda l: l["r"]["args"][0].update(v=l["r"]["args"][0]["v"] + [120]))
+    add(1, 1, lambda l: l["d"]["called"], "endpoint passed to the view", lambda l: l["d"].update(cep=l["d"]["cep"] + "x"))
+    add(1, 2, lambda l: True, "get_host result", lambda l: l["g"].update(res=l["g"]["res"] + [120]))
+    add(2, 0, lambda l: l["r"]["kind"] == "redirect", "slash redirect URL", lambda l: l["r"].update(url=l["r"]["url"][:-1]))
+    add(3, 0, lambda l: l["r"]["kind"] == "redirect", "redirect_to target", lambda l: l["r"].update(url=l["r"]["url"] + [120]))
+    add(4, 0, lambda l: l["r"]["kind"] == "notfound", "build_only rule recorded as matched", lambda l: l["r"].update(kind="match", rule=1))
+    add(5, 0, lambda l: l["r"]["kind"] == "notfound", "rule of another host recorded as matched", lambda l: l["r"].update(kind="match", rule=1))
+    fl = [copy.deepcopy(l) for l in lines if l["op"] == "factory" and l["f"]["src"]["ws"] and l["f"]["out"]["ws"]][:1]
+    for l in fl:
         l["f"]["out"]["ws"] = False
-        muts.append((c, l, "websocket flag of a copied rule"))
-    got = find(lambda l: l["op"] == "dispatch" and l["d"]["called"])
-    if got:
-        c, l = got
-        l["d"]["cep"] = l["d"]["cep"] + "x"
-        muts.append((c, l, "endpoint passed to the view"))
-    got = find(lambda l: l["op"] == "gethost")
-    if got:
-        c, l = got
-        l["g"]["res"] = l["g"]["res"] + [120]
-        muts.append((c, l, "get_host result"))
+        muts.append(({"op": "cfg", "rules": [], "map": {"strict": True, "merge": True, "rd": True, "hm": False},
+                      "bind": rx.enc_bind(rt.DEFAULT_BIND)}, l, "websocket flag of a copied rule"))
     out = []
     for k, (c, l, what) in enumerate(muts):
         c["t"] = l["t"] = f"selftest{k}"
@@ -320,7 +331,7 @@ def self_test(ctx: Ctx, lines):
     ctx.traces -= len(out)
     missed = [what for k, (_, _, what) in enumerate(muts) if f"selftest{k}" not in rejected]
     ctx.notes["corrupted_lines_rejected"] = f"{len(muts) - len(missed)}/{len(muts)}"
-    if missed or len(muts) < 5:
+    if missed or len(muts) < 6:
         raise MachineryError(f"judge self-test: corrupted fields not rejected: {missed} (of {len(muts)} corrupted lines)")
 
 
@@ -347,17 +358,35 @@ def run(ctx: Ctx):
     rng = random.Random(ctx.seed + 7)
     # code -> spec recording first (fork pool), then every TLC run concurrently: model checks, broken variants, exports
     # and the judge batches of the recorded lines; the exported model cases are replayed in-process and judged last
-    groups = universe_groups(ctx, rng) + converter_groups(ctx, rng) + random_groups(ctx, rng)
-    lines, meta = record(ctx, groups, rx.factory_cases(rng, ctx.quick))
-    with cf.ThreadPoolExecutor(max_workers=4 if ctx.quick else 3) as ex:
-        exp_f, var_f, mc_f = start_tlc(ctx, ex)
-        jf = ex.submit(judge_recorded, ctx, lines, meta)
-        cases = [v for f in exp_f for v in f.result()]
-        mgroups = model_groups(ctx, cases)
-        mlines, mmeta = record(ctx, mgroups, tag="model", fork=False)
-        judge_recorded(ctx, mlines, mmeta)
-        jf.result()
-        finish_model_checking(ctx, var_f, mc_f)
+    import multiprocessing as mp
+    import time
+
+    ph, t0 = {}, time.time()
+    # the worker processes are forked before any thread exists; they serve both recordings
+    pool = mp.get_context("fork").Pool(min(ctx.workers, 16))
+    try:
+        groups = universe_groups(ctx, rng) + converter_groups(ctx, rng) + random_groups(ctx, rng)
+        st_base = len(groups)
+        groups += self_test_groups()
+        lines, meta = record(ctx, groups, rx.factory_cases(rng, ctx.quick), pool=pool)
+        ph["record"] = round(time.time() - t0, 1)
+        with cf.ThreadPoolExecutor(max_workers=5 if ctx.quick else 3) as ex:
+            exp_f, var_f, mc_f = start_tlc(ctx, ex)
+            jf = ex.submit(judge_recorded, ctx, lines, meta)
+            cases = [v for f in exp_f for v in f.result()]
+            ph["exports_done"] = round(time.time() - t0, 1)
+            mgroups = model_groups(ctx, cases)
+            mlines, mmeta = record(ctx, mgroups, tag="model", pool=pool)
+            ph["model_replayed"] = round(time.time() - t0, 1)
+            judge_recorded(ctx, mlines, mmeta)
+            ph["model_judged"] = round(time.time() - t0, 1)
+            jf.result()
+            ph["code_judged"] = round(time.time() - t0, 1)
+            finish_model_checking(ctx, var_f, mc_f)
+            ph["model_checked"] = round(time.time() - t0, 1)
+    finally:
+        pool.terminate()
+    ctx.notes["phase_end_s"] = ph
     lines += mlines
     ctx.notes["maps"] = len(groups) + len(mgroups)
     ctx.notes["model_maps"] = len(mgroups)
@@ -376,7 +405,7 @@ def run(ctx: Ctx):
         "websocket_urls_built": sum(1 for l in lines if l["op"] == "build" and l["x"]["url"][:2] == [119, 115]),
         "dispatch_view_calls": sum(1 for l in lines if l["op"] == "dispatch" and l["d"]["called"]),
     }
-    self_test(ctx, lines)
+    self_test(ctx, lines, st_base)
 
 
 def replay(ctx: Ctx, data):
@@ -386,7 +415,7 @@ def replay(ctx: Ctx, data):
     if "factory" in case:
         f = case["factory"]
         ctx.sample({"factory": f[0], "ctx": f[1], "options": f[2]})
-        judge_recorded(ctx, *record(ctx, [], [tuple(f)], fork=False))
+        judge_recorded(ctx, *record(ctx, [], [tuple(f)]))
         return
     ctx.sample({"rules": case["rules_text"], "op": case["op"]})
-    judge_recorded(ctx, *record(ctx, [(case["cfg"], [case["op"]])], fork=False))
+    judge_recorded(ctx, *record(ctx, [(case["cfg"], [case["op"]])]))
